@@ -1,6 +1,7 @@
 import PgsVerif.Props.C03
 import PgsVerif.Proofs.Clos
 import PgsVerif.Proofs.DeclFacts
+import PgsVerif.Proofs.MethodsNodup
 /-!
 # C04 — import relations between files are exact
 
@@ -200,5 +201,32 @@ theorem C04_message_imports (w : World) (hv : Valid w) (g : Graph) (hg : hydrate
     simp only [allFields, List.mem_flatten, List.mem_map]
     exact ⟨_, ⟨(fi, f), hf, rfl⟩, by rw [a]; exact b q hq⟩
   exact C04_field_imports w hv g hg _ (List.mem_append_left _ hm)
+
+end Pgs.AST
+
+/-! ### imports of a method -/
+namespace Pgs.AST
+
+/-- **C03/C04 (the input and output of THAT method)**: methods have pairwise distinct references, so
+    asking the built graph by reference answers the declared messages that method names. -/
+theorem C03_method_io (w : World) (hv : Valid w) (g : Graph) (hg : hydrate w = .ok g) :
+    ∀ x ∈ specMio w, g.mio.find? (·.1 == x.1) = some x := by
+  obtain ⟨g', hg', _, hm, _⟩ := C03_graph w hv
+  rw [hg] at hg'; cases hg'
+  intro x hx
+  rw [hm]
+  have hnd := (specFilesMio_nodup w w.files 0).1
+  rw [specFilesMio_eq] at hnd
+  exact find_self_of_nodup _ hnd x hx
+
+/-- **C04 (imports of a method)**: the files of its input and of its output when they are other
+    files, the output's only once. -/
+theorem C04_method_imports (w : World) (hv : Valid w) (g : Graph) (hg : hydrate w = .ok g) :
+    ∀ x ∈ specMio w, methodImports g x.1 =
+      (if x.2.1.file != x.1.file then [x.2.1.file] else []) ++
+      (if x.2.2.file != x.1.file && x.2.2.file != x.2.1.file then [x.2.2.file] else []) := by
+  intro x hx
+  obtain ⟨r, i, o⟩ := x
+  simp only [methodImports, C03_method_io w hv g hg _ hx]
 
 end Pgs.AST
